@@ -13,7 +13,6 @@ from ..core.constfold import Folder
 from ..core.astutil import walk_no_nested, call_name, short, src, kwarg, resolve_local, enclosing_conjuncts
 from ..engines.symeval import SymEvaluator, Poly, Param, SObj, _Path
 from ..engines.affine import check_affine
-from .c02 import merge_keys
 
 BASE = "pycaption/base.py"
 
@@ -23,8 +22,6 @@ def run(ctx, report):
     report.section("adjust_caption_timing effects", retime_effects, ctx, report)
     report.section("adjust_caption_timing", retime, ctx, report, folder)
     report.section("merge", merging, ctx, report)
-    report.section("runs", runs, ctx, report)
-    report.not_decided += ["maximality of merged runs", "idempotence of a second merge"]
 
 
 def retime_effects(ctx, report):
@@ -156,185 +153,5 @@ def retime(ctx, report, folder):
 
 
 def merging(ctx, report):
-    merge_keys_only_base(ctx, report)
-    fn = ctx.index.get_function(BASE, "merge")
-    report.covered(fn)
-    loops = [n for n in walk_no_nested(fn.node) if isinstance(n, ast.For)]
-    outer = [l for l in loops if any(isinstance(x, ast.For) for x in l.body) or
-             any(isinstance(x, ast.If) for x in l.body)]
-    if not outer:
-        raise AnalysisError("merge: loop over captions not found")
-    lp = outer[0]
-    brk = [n for n in lp.body if isinstance(n, ast.If) and any(
-        isinstance(c, ast.Call) and (call_name(c) or "").endswith("create_break") for c in walk_no_nested(n))]
-    if len(brk) != 1:
-        report.violation("R-SEPARATOR", fn, "exactly one break is inserted between merged captions",
-                         {"conditional_break_insertions": len(brk)}, "2")
-    else:
-        t = brk[0].test
-        acc = None
-        for c in walk_no_nested(brk[0]):
-            if isinstance(c, ast.Call) and isinstance(c.func, ast.Attribute) and c.func.attr == "append":
-                acc = src(c.func.value)
-        plain = src(t) == acc or src(t) in (f"len({acc}) > 0", f"len({acc})", f"{acc} != []")
-        if plain:
-            report.ok("R-SEPARATOR", (fn, brk[0]), "a break separates every two merged captions",
-                      {"guard": src(t)}, "2")
-        elif isinstance(t, ast.BoolOp) and isinstance(t.op, ast.And) and any(src(v) == acc for v in t.values):
-            report.violation("R-SEPARATOR", (fn, brk[0]), "a break separates every two merged captions",
-                             {"guard": src(t), "why": "an additional condition suppresses the separator for some captions"}, "2")
-        else:
-            raise AnalysisError(f"merge: separator guard not recognised: {src(t)}")
-        n_app = sum(1 for c in walk_no_nested(brk[0]) if isinstance(c, ast.Call) and isinstance(c.func, ast.Attribute)
-                    and c.func.attr == "append")
-        report.check(n_app == 1, "R-SEPARATOR", (fn, brk[0]), "exactly one break node per boundary", {"appends": n_app}, "2")
-        # break before this caption's nodes
-        idx_b = lp.body.index(brk[0])
-        node_loop = [i for i, n in enumerate(lp.body) if isinstance(n, ast.For) or
-                     (isinstance(n, (ast.Expr, ast.AugAssign)) and ".nodes" in src(n))]
-        report.check(bool(node_loop) and idx_b < node_loop[0], "R-ORDER", fn,
-                     "the separator precedes the nodes of the next caption", None, "2")
-    capt = [c for c in walk_no_nested(fn.node) if isinstance(c, ast.Call) and call_name(c) == "Caption"]
-    if len(capt) != 1:
-        raise AnalysisError("merge: Caption(...) construction not found")
-    param = fn.params[0]
-    got = []
-    for k, name in ((0, "start"), (1, "end")):
-        a = capt[0].args[k] if len(capt[0].args) > k else kwarg(capt[0], name)
-        got.append(src(resolve_local(fn, a)) if a is not None else None)
-    ok = got == [f"{param}[0].start", f"{param}[0].end"]
-    report.check(ok, "R-FIELD-ROUTING", (fn, capt[0]), "merged caption carries the first caption's start and end",
-                 {"start_and_end_arguments_resolve_to": got}, "2")
-    loopvar = src(lp.target)
-    # what is iterated must also be appended (to the list that becomes the merged caption's nodes)
-    for n in walk_no_nested(lp):
-        if isinstance(n, ast.For) and n is not lp:
-            v = src(n.target)
-            apps = [c for c in walk_no_nested(n) if isinstance(c, ast.Call) and isinstance(c.func, ast.Attribute)
-                    and c.func.attr == "append" and len(c.args) == 1 and src(c.args[0]) == v]
-            guards = [x for x in walk_no_nested(n) if isinstance(x, (ast.If, ast.Continue, ast.Break))]
-            report.check(len(apps) == 1 and not guards, "R-APPEND-ORDER", (fn, n),
-                         "every node of a merged caption is appended, unconditionally",
-                         {"appends_of_the_loop_variable": len(apps), "conditions_or_exits_in_the_loop": len(guards)}, "2")
-    contrib = [src(n.iter) for n in walk_no_nested(lp) if isinstance(n, ast.For) and n is not lp]
-    contrib += [src(c.args[0]) for c in walk_no_nested(lp) if isinstance(c, ast.Call) and isinstance(c.func, ast.Attribute)
-                and c.func.attr == "extend" and len(c.args) == 1]
-    contrib += [src(n.value) for n in walk_no_nested(lp) if isinstance(n, ast.AugAssign) and isinstance(n.op, ast.Add)]
-    if not contrib:
-        raise AnalysisError("merge: no statement adds a caption's nodes to the merged list (shape not recognised)")
-    ok = all(c == f"{loopvar}.nodes" for c in contrib)
-    report.check(ok, "R-APPEND-ORDER", fn, "all nodes of every merged caption are appended in order",
-                 {"sources": contrib, "required": f"{loopvar}.nodes"}, "2")
-
-
-def runs(ctx, report):
-    """merge_concurrent_captions as a run detector, decided on the feasible paths of one loop
-    iteration: every caption joins exactly one run (appended to the current run when its times
-    equal the previous caption's, else it starts a new run after the current one was merged and
-    stored), the previous-caption variable is advanced on every path, and the last run is merged
-    and stored after the loop."""
-    from ..engines.pathrules import feasible_paths
-    fn = ctx.index.get_function(BASE, "merge_concurrent_captions")
-    report.covered(fn)
-    inner = None
-    for lp in walk_no_nested(fn.node):
-        if isinstance(lp, ast.For) and isinstance(lp.target, ast.Name) and not any(
-                isinstance(x, ast.For) for x in walk_no_nested(lp) if x is not lp):
-            if any(isinstance(c, ast.Call) and (call_name(c) or "") == "merge" for c in walk_no_nested(fn.node)):
-                inner = lp
-    if inner is None:
-        raise AnalysisError("merge_concurrent_captions: loop over the captions of a language not found")
-    cap = inner.target.id
-
-    def classify(n):
-        if isinstance(n, ast.Call) and isinstance(n.func, ast.Attribute) and n.func.attr == "append" and len(n.args) == 1:
-            a = n.args[0]
-            if isinstance(a, ast.Name) and a.id == cap:
-                return "ADD"
-            if isinstance(a, ast.Call) and (call_name(a) or "") == "merge":
-                return "FLUSH"
-        return None
-
-    def classify_stmt(st):
-        if isinstance(st, ast.Assign) and len(st.targets) == 1 and isinstance(st.targets[0], ast.Name):
-            v = st.value
-            if isinstance(v, ast.Name) and v.id == cap:
-                return "SETLAST"
-            if any(isinstance(x, (ast.List, ast.Tuple)) and len(x.elts) == 1 and isinstance(x.elts[0], ast.Name)
-                   and x.elts[0].id == cap for x in ast.walk(v)):
-                return "NEW"            # a fresh one-element run: [caption] / CaptionList([caption])
-        return None
-    paths = feasible_paths(fn, classify, resolve_ast=lambda t: resolve_local(fn, t, index=ctx.index), classify_stmt=classify_stmt)
-    bad, n_iter = [], 0
-    for items in paths:
-        ends = [i for i, it in enumerate(items) if it[0] == "iter-end"]
-        if len(ends) < 2:
-            continue
-        n_iter += 1
-        body, tail = items[:ends[0]], items[ends[0]:]
-        evs = [it[1] for it in body if it[0] == "ev"]
-        tests = [(it[1], it[2]) for it in body if it[0] == "test"]
-        eq = [b for t, b in tests if "==" in t and ".start" in t and ".end" in t]
-        prev = [b for t, b in tests if "==" not in t]
-        why = None
-        if evs.count("ADD") + evs.count("NEW") != 1:
-            why = "the caption joins %d runs on this path" % (evs.count("ADD") + evs.count("NEW"))
-        elif "ADD" in evs and not (eq and eq[-1] is True):
-            why = "the caption is added to the current run without its times being equal to the previous caption's"
-        elif "ADD" in evs and "FLUSH" in evs:
-            why = "the current run is stored although the caption continues it"
-        elif "NEW" in evs and eq and eq[-1] is False and evs.count("FLUSH") != 1:
-            why = "a new run starts but the run before it is stored %d times" % evs.count("FLUSH")
-        elif "NEW" in evs and "FLUSH" in evs and evs.index("FLUSH") > evs.index("NEW"):
-            why = "the old run is stored after it was replaced"
-        elif "NEW" in evs and prev and prev[0] is False and "FLUSH" in evs:
-            why = "a run is stored before the first caption"
-        elif "SETLAST" not in evs:
-            why = "the previous-caption variable is not advanced"
-        tail_ev = [it[1] for it in tail if it[0] == "ev"]
-        tail_tests = [b for it in tail if it[0] == "test" for b in [it[2]] if "merge" not in it[1]]
-        if why is None and tail_tests and tail_tests[0] is True and tail_ev.count("FLUSH") != 1:
-            why = "the last run is stored %d times after the loop" % tail_ev.count("FLUSH")
-        if why:
-            bad.append({"why": why, "events": evs, "tests": [f"{t}={b}" for t, b in tests][:4]})
-    if n_iter < 3:
-        raise AnalysisError(f"merge_concurrent_captions: only {n_iter} per-caption paths extracted (expected first / same times / other times)")
-    # every language is processed: nothing leaves the routine from inside the per-language loop
-    exits = [short(n) for lp in walk_no_nested(fn.node) if isinstance(lp, ast.For) and lp is not inner
-             and inner in list(walk_no_nested(lp)) for n in walk_no_nested(lp) if isinstance(n, (ast.Return, ast.Break))]
-    report.check(not exits, "R-LOOP", fn, "every language is merged (no return or break inside the loop over languages)",
-                 {"exits_inside_the_language_loop": exits}, "2")
-    final = False
-    for items in paths:
-        ends = [i for i, x in enumerate(items) if x[0] == "iter-end"]
-        if len(ends) >= 2 and any(it[0] == "ev" and it[1] == "FLUSH" for it in items[ends[0]:]):
-            final = True
-    if not final:
-        bad.append({"why": "the run that is still open when the loop ends is never merged and stored"})
-    # the merged list replaces the language's list
-    outer = [lp for lp in walk_no_nested(fn.node) if isinstance(lp, ast.For) and inner in list(walk_no_nested(lp)) and lp is not inner]
-    stores = [c for c in walk_no_nested(fn.node) if isinstance(c, ast.Call) and (call_name(c) or "").endswith("set_captions")]
-    merged_name = None
-    for c in walk_no_nested(fn.node):
-        if classify(c) == "FLUSH":
-            merged_name = src(c.func.value)
-    ok_store = len(outer) == 1 and len(stores) == 1 and len(stores[0].args) == 2 \
-        and src(stores[0].args[0]) == src(outer[0].target) and src(stores[0].args[1]) == merged_name
-    report.check(ok_store, "R-FIELD-ROUTING", fn, "the merged list is stored back under the language it was built from",
-                 {"set_captions_calls": [short(c) for c in stores], "merged_list": merged_name}, "2")
-    report.check(not bad, "R-RUNS", (fn, inner), "every caption joins exactly one run; a run is stored exactly when the next "
-                 "caption's times differ, and once more after the loop", {"paths_per_caption": n_iter, "offending": bad[:3]}, "2")
-
-
-def merge_keys_only_base(ctx, report):
-    class _R:
-        pass
-    # reuse C02's rule, keep only the instance for merge_concurrent_captions
-    before = len(report.instances)
-    merge_keys(ctx, report)
-    kept = []
-    for inst in report.instances[before:]:
-        if inst.qualname == "merge_concurrent_captions":
-            inst.clause = "2"
-            kept.append(inst)
-    report.instances[before:] = kept
+    from . import merge_fold
+    merge_fold.run(ctx, report, clause="2")
